@@ -26,7 +26,7 @@ def run(ctx):
     ctx.require(is_private(vis), "T8-private-field", FW, "field:w", "FreeWord.w is private to its module", "FreeWord.w is visible outside free_words: %s" % vis)
     # ---- T1
     n = t1_write_through(ctx, "T1-write-through", FW, "w", SAN)
-    ctx.floor("T1 write sites of FreeWord.w", n, 3)
+    ctx.floor("T1 write sites of FreeWord.w", n, 2)
     # ---- normalized shape
     nb = ctx.body("fpgroups::free_words::normalized")
     check_normalized(ctx, nb)
